@@ -26,9 +26,10 @@ type Block struct {
 	version uint32
 
 	// symbolsBase is, for a block produced by a BlockBuilder, one more than the length of the symbol
-	// table its terms were converted against (zero: not recorded). The block's symbol indexes are only
-	// meaningful on top of a table of that length.
+	// table its terms were converted against (zero: not recorded), and baseSymbols a copy of that table.
+	// The block's symbol indexes are only meaningful on top of a table that starts with these symbols.
 	symbolsBase int
+	baseSymbols *datalog.SymbolTable
 }
 
 // checkSymbols verifies that every predicate name and string of the block denotes a symbol of the
